@@ -5,7 +5,7 @@ import re
 
 from .. import gen
 from .. import workloads as W
-from ..ast import Desc, StochAst, TokenAst, print_desc
+from ..ast import Desc, MolAst, StochAst, TokenAst, print_desc
 from ..monitors import steps, trace
 from ..util import StepTimeout, time_limit
 from . import c02
@@ -54,7 +54,31 @@ def ctor(level):
         "system": lambda t: gbigsmiles.System(t),
         "stochastic-call": lambda t: _StochCall(gbigsmiles, t),
         "token-call": lambda t: _TokenCall(gbigsmiles, t),
+        "element-alone": lambda t: _ElementAlone(gbigsmiles, t),
     }[level]
+
+
+class _ElementAlone:
+    """misuse of the call interface: a stochastic object whose left terminal is not [] is asked to generate WITHOUT a prefix.  The object is one the
+    public API hands out: an element of a parsed molecule, or an element of the mirror image Molecule.gen_mirror() (terminals change sides)"""
+
+    generable = True
+
+    def __init__(self, gbigsmiles, t):
+        self.text, self.route, self.idx = t
+        m = gbigsmiles.Molecule(self.text)
+        if self.route == "mirror":
+            m = m.gen_mirror()
+        self.obj = m.elements[self.idx]
+        if not isinstance(self.obj, gbigsmiles.Stochastic):
+            raise AssertionError("harness: element is not a stochastic object")
+
+    def generate(self, rng):
+        return self.obj.generate(rng=rng)
+
+    def __str__(self):
+        how = "Molecule(%r)" % self.text + (".gen_mirror()" if self.route == "mirror" else "")
+        return f"{how}.elements[{self.idx}].generate()  # no prefix"
 
 
 class _TokenCall:
@@ -304,6 +328,42 @@ def op_complete_prefix_to_token(rng, m):
     return "token-call", (s.to_text(True, 0, False), tok), "generate"
 
 
+def op_object_alone(rng, m):
+    """an object with a non-empty left terminal generated without prefix; half of the time the object is taken from the mirror image of a molecule
+    whose first object starts from an end group (left terminal [] as written, non-empty after mirroring)"""
+    import gbigsmiles
+
+    ctx = gen.Ctx(rng, small=True)
+    u1 = ctx.unit([ctx.lt(), ctx.gt()])
+    rt = ctx.lt()
+    s1 = StochAst(gen.D(""), gen.D(rt.sym, rt.id), [u1], [ctx.end(ctx.lt()), ctx.end(ctx.gt())], gen._dist_for(ctx, [u1], 2))
+    els = [s1]
+    if rng.random() < 0.5:
+        u2 = ctx.unit([ctx.lt(), ctx.gt()])
+        lt = ctx.gt()
+        if rng.random() < 0.5:
+            els.append(StochAst(gen.D(lt.sym, lt.id), gen.D(""), [u2], [ctx.end(ctx.lt()), ctx.end(ctx.gt())], gen._dist_for(ctx, [u2], 2)))
+        else:
+            els.append(StochAst(gen.D(lt.sym, lt.id), gen.D(rt.sym, rt.id), [u2], [], gen._dist_for(ctx, [u2], 2)))
+            els.append(ctx.plain())
+    else:
+        els.append(ctx.plain())
+    mol = MolAst(els)
+    text = mol.to_text(True, 0)
+    n = len(els)
+    # (route, index in the list the API hands out) of every object whose left terminal is non-empty THERE
+    cands = [("parsed", i) for i, e in enumerate(els) if isinstance(e, StochAst) and e.left.sym]
+    cands += [("mirror", n - 1 - i) for i, e in enumerate(els) if isinstance(e, StochAst) and e.right.sym]
+    route, idx = rng.choice(cands)
+    try:
+        M = gbigsmiles.Molecule(text)
+        if not M.generable or M.gen_mirror() is None:
+            return None
+    except Exception:
+        return None
+    return "element-alone", (text, route, idx), "generate"
+
+
 def op_system_nongenerable(rng, m):
     t = m.to_text()
     if rng.random() < 0.5:
@@ -338,6 +398,7 @@ OPS = {
     "system-not-generable": op_system_nongenerable,
     "token-after-closed-object": op_token_after_closed_object,
     "complete-prefix-handed-to-token": op_complete_prefix_to_token,
+    "object-with-left-terminal-generated-alone": op_object_alone,
 }
 
 
